@@ -95,7 +95,9 @@ def do_run(sid, props, tier="quick", in_repo=False, only=None):
             rc, out = sh(cmd, cwd=CHECK_ROOT, env=env, timeout=7200)
             viol = [l for l in out.splitlines() if l.startswith("VIOLATION") or l.strip().startswith("counterexample in")]
             herr = [l for l in out.splitlines() if l.startswith("HARNESS-ERROR")]
-            meta.setdefault("checks", {})[p + ":" + tier] = {"exit": rc, "caught": rc == 1, "wall_s": round(time.time() - t0, 1),
+            head = sh(["git", "-C", "/repo", "rev-parse", "--short", "HEAD"])[1].strip()
+            meta.setdefault("checks", {})[p + ":" + tier] = {"exit": rc, "caught": rc == 1, "wall_s": round(time.time() - t0, 1), "repo_head": head,
+                                                             "conditions_run": list(only) if only else "all",
                                                              "violations": [v[:300] for v in viol][:6], "harness_errors": [h[:300] for h in herr][:3],
                                                              "how": ("git -C /repo apply; ./check; git -C /repo checkout -- ." if in_repo else "LSF_REPO=<scratch worktree with patch> ./check")}
             print(sid, p, tier, "exit", rc, "CAUGHT" if rc == 1 else ("HARNESS-ERROR" if rc == 2 else "MISSED"))
@@ -110,6 +112,29 @@ def do_run(sid, props, tier="quick", in_repo=False, only=None):
             drop(target)
     with open(os.path.join(dst, "meta.json"), "w") as f:
         json.dump(meta, f, indent=1)
+
+
+def refresh(sid):
+    """Re-run the recorded checks of one change against /repo HEAD: first only the conditions that caught it before
+    (a subset of the full check, so a catch there is a catch of the full check); the whole check when that does not
+    catch it or when it was missed before."""
+    import re
+    meta = json.load(open(os.path.join(SEEDED, sid, "meta.json")))
+    for key, v in sorted(meta.get("checks", {}).items()):
+        prop, tier = key.split(":")
+        if tier != "quick":
+            continue
+        conds = []
+        for t in v.get("violations", []):
+            mm = re.search(r"counterexample in (\w+)", t)
+            if mm and mm.group(1) not in conds:
+                conds.append(mm.group(1))
+        if v.get("caught") and conds:
+            do_run(sid, [prop], tier, False, conds[:3])
+            m2 = json.load(open(os.path.join(SEEDED, sid, "meta.json")))
+            if m2["checks"][key]["caught"]:
+                continue
+        do_run(sid, [prop], tier, False, None)
 
 
 def matrix():
@@ -174,6 +199,8 @@ if __name__ == "__main__":
             else:
                 rest.append(a[i]); i += 1
         do_run(rest[0], rest[1:], tier, a[0] == "run-in-repo", only)
+    elif a[0] == "refresh":
+        refresh(a[1])
     elif a[0] == "matrix":
         matrix()
     elif a[0] == "table":
